@@ -14,6 +14,15 @@ Definition inst_verify (opaque : bool) (k : N) (m : N) (v : sval) : bool :=
   | SBytes b => opaque && bytes_eqb b (k :: m :: zeros 62)
   end.
 
+(* full-size (r,s) for a curve of `bits`+1 significant bits (so that DER/P1363 lengths are realistic) *)
+Definition inst_sign_big (bits : N) (k : N) (m : N) (rd : N) : sval :=
+  SRS (Z.of_N (2 ^ bits + k + 1)) (Z.of_N (2 ^ bits + m + 1)).
+Definition inst_verify_big (bits : N) (k : N) (m : N) (v : sval) : bool :=
+  match v with
+  | SRS r s => Z.eqb r (Z.of_N (2 ^ bits + k + 1)) && Z.eqb s (Z.of_N (2 ^ bits + m + 1))
+  | SBytes _ => false
+  end.
+
 (* AEAD: body = key :: len nonce :: nonce ++ len aad :: aad ++ msg  (an injective encoding of everything bound) *)
 Fixpoint strip_prefix (p l : bytes) : option bytes :=
   match p, l with
